@@ -9,7 +9,7 @@ use std::cmp::Ordering;
 
 pub fn meta() -> Meta {
     Meta {
-        rule: "events = all comparison operators (== != < <= > >= cmp partial_cmp), Epoch::min/max, Range::contains on one ordered pair of epochs in any of the 81 scale combinations, the same after converting the left operand to a third scale, and sort of vectors of mixed-scale epochs. Expected: the chronological order of the TAI instants they denote (M-SCALE/M-LEAP/M-DYN): exactly one of <,==,> holds and it is the chronological one, symmetric under operand swap, invariant under conversion, transitive (all pairs of each triple agree with the model order). Pairs with an ET/TDB operand in a different scale are judged only when more than 100 ns apart; ET/TDB-vs-UTC pairs within 100 ns of a UTC discontinuity are don't-care. Generation: same instant expressed in two scales, 1 ns apart, symmetric about a scale's reference epoch (+-d, d < 1 century), either side of every leap second (+-{1 ns..40 s}), random. Non-trivial = scales differ, same instant, 1 ns apart, mirrored about the reference, within 41 s of a leap second; distinct = distinct pair hashes among those.",
+        rule: "events = all comparison operators (== != < <= > >= cmp partial_cmp), Epoch::min/max, Range::contains on one ordered pair of epochs in any of the 81 scale combinations, the same after converting the left operand to a third scale, and sort of vectors of mixed-scale epochs. Expected: the chronological order of the TAI instants they denote (M-SCALE/M-LEAP/M-DYN): exactly one of <,==,> holds and it is the chronological one, symmetric under operand swap, invariant under conversion, transitive (all pairs of each triple agree with the model order). Pairs with an ET/TDB operand in a different scale are judged only when more than 100 ns apart; ET/TDB-vs-UTC pairs within 100 ns of a UTC discontinuity are don't-care. Generation: same instant expressed in two scales, 1 ns apart, symmetric about a scale's reference epoch (+-d, d < 1 century), either side of every leap second (+-{1 ns..40 s}), random. Non-trivial = scales differ, same instant, 1 ns apart, mirrored about the reference, within 41 s of a leap second; distinct = distinct pair hashes among those. Round 6: Ord::clamp (and max(lo, min(x, hi)), x.max(lo).min(hi), Iterator::max/min/max_by/min_by_key) on triples in any scale combination; sorts repeated through sort_unstable, sort_by(partial_cmp), BTreeSet, binary_search; pairs anywhere in the representable range (two centuries inside the bounds).",
         assumptions: &["M-SCALE / M-LEAP / M-DYN"],
         mandatory: &["pair/cross-scale", "pair/same-instant", "pair/one-ns-apart", "pair/mirror-about-reference", "pair/near-leap-second", "pair/dyn", "convert/invariance", "sort/vector"],
         thorough_scale: 50,
